@@ -50,6 +50,9 @@ ASSUMPTIONS = [
     "Crypt filter method Identity, per-stream Crypt filters, public-key handlers and object streams are outside this check (C05 / not produced).",
 ]
 
+# deviations still switched on in spec/MC_SecurityAlgorithms_{quick,thorough,mut_*}.cfg (= confirmed and not yet repaired)
+MODEL_DEV = {"h12": False, "ownerAbsent": True}
+
 MUTANTS = [("MC_SecurityAlgorithms_mut_alg7.cfg", "AuthOwnerComplete"), ("MC_SecurityAlgorithms_mut_alg12.cfg", "AuthOwnerComplete")]
 
 
@@ -106,8 +109,13 @@ def check_generated(lines):
         if not (any(c["expUser"] and not c["expOwner"] for c in cs) and any(c["expOwner"] and not c["expUser"] for c in cs)
                 and any(c["expOwner"] and c["expUser"] for c in cs)):
             raise vlib.ToolError("vacuous: password classes of revision %d lack user-only / owner-only / both" % r)
-    if not any(c["model"]["h12"] for c in cases) or not any(c["model"]["ownerAbsent"] for c in cases):
-        raise vlib.ToolError("vacuous: the modelled deviations never occur")
+    # the input classes of the modelled deviations (owner-only password at R <= 4; absent owner password with a non-empty
+    # user password) must occur whatever the switches say; the deviation itself only where its Dev_ switch is still on
+    if not any(c["cls"]["h12"] for c in cases) or not any(c["cls"]["ownerAbsent"] for c in cases):
+        raise vlib.ToolError("vacuous: the input classes of the modelled deviations never occur")
+    for k, on in MODEL_DEV.items():
+        if any(c["model"][k] for c in cases) != on:
+            raise vlib.ToolError("modelled deviation %s %s in the design as the code is" % (k, "never occurs" if on else "still occurs"))
     groups = {(json.dumps(c["cfg"], sort_keys=True), c["absent"], json.dumps(c["user"]), json.dumps(c["owner"])) for c in cases}
     return len(terms), len(cases), len(groups)
 
